@@ -3,7 +3,8 @@
    the model - the Rust code's panics (unwrap, assert, slicing, arithmetic) are explicit error
    values of the model, and the theorems say they are unreachable. *)
 From HclV Require Import Base Yo Region RegionSpec RegionProofs Graph GraphSpec GraphProofs
-                         Expr ExprRules ExprRulesProofs YoSpec YoProofs.
+                         Expr ExprRules ExprRulesProofs YoSpec YoProofs
+                         Machine Build BuildSpec Lexer Parser LexParseSpec Generated FrontTotalSpec FrontTotalProofs.
 Open Scope list_scope.
 Open Scope N_scope.
 
@@ -38,3 +39,80 @@ Theorem C13_reject_has_diag :
   forall f G C e es, check f G C e = Err es -> es <> [].
 Proof. exact reject_has_diag. Qed.
 Print Assumptions C13_reject_has_diag.
+
+(* ---- the front end is total (FrontTotalSpec.v / FrontTotalProofs.v) ------------------------- *)
+
+(* the lexer: the fuel the model passes to its loops is never exhausted (any larger fuel gives the
+   same answer), for every classification of non-ASCII characters and ARBITRARY bytes *)
+Theorem C13_lexer_fuel_never_runs_out :
+  forall uc bytes f1 f2,
+    (S (List.length bytes) <= f1)%nat -> (S (List.length bytes) <= f2)%nat ->
+    lex_loop uc f2 bytes (List.length bytes) (char_indices f1 bytes 0) [] = lex uc bytes.
+Proof. exact lex_fuel_holds. Qed.
+Print Assumptions C13_lexer_fuel_never_runs_out.
+
+(* every lexer step that yields a token or an error consumes input: the token loop terminates *)
+Theorem C13_lexer_progress : stmt_lex_next_progress.
+Proof. exact lex_next_progress_holds. Qed.
+Print Assumptions C13_lexer_progress.
+
+(* every token is a non-empty range of the text, tokens come in text order without overlap, and a
+   lexical error points into the text (so that rendering it is covered by C13_render_total) *)
+Theorem C13_lexer_spans_in_range :
+  forall uc bytes toks err, lex uc bytes = (toks, err) ->
+    (forall t, In t toks -> (tok_start t < tok_end t)%nat /\ (tok_end t <= List.length bytes)%nat) /\
+    (forall i j ti tj, nth_error toks i = Some ti -> nth_error toks j = Some tj -> (i < j)%nat ->
+       (tok_end ti <= tok_start tj)%nat) /\
+    (forall e, err = Some e ->
+       lex_error_in_range (List.length bytes) e /\
+       forall t, In t toks -> (tok_end t <= lex_error_start e)%nat).
+Proof. exact lex_spans_holds. Qed.
+Print Assumptions C13_lexer_spans_in_range.
+
+(* the parser: a None of Parser.parse is a syntax error, never fuel exhaustion - whatever larger
+   fuels are given to the statement level and to the statement loop, the answer is the same *)
+Theorem C13_parser_fuel_never_runs_out :
+  forall toks (sf : nat -> nat) fuel,
+    (forall n, (20 * S n <= sf n)%nat) -> (S (List.length toks) <= fuel)%nat ->
+    ps_with doc_tiers sf fuel toks false [] = parse doc_tiers toks.
+Proof. apply parse_fuel_irrelevant_holds. vm_compute. repeat constructor. Qed.
+Print Assumptions C13_parser_fuel_never_runs_out.
+
+(* which diagnostics the checker and the evaluator can produce: never an internal error *)
+Theorem C13_checker_and_evaluator_error_kinds : stmt_check_error_kinds /\ stmt_eval_error_kinds.
+Proof. split; [exact check_error_kinds_holds | exact eval_error_kinds_holds]. Qed.
+Print Assumptions C13_checker_and_evaluator_error_kinds.
+
+(* Program::new, for EVERY statement list (no well-formedness assumed), every option set, every
+   character classification and the component table of the compiled code: a failure is a
+   non-empty list of user diagnostics - no unwrap on a missing constant, no counter underflow in
+   the sorter, no "find_cycle() called when no cycle present", no fuel exhaustion *)
+Theorem C13_builder_never_fails_internally :
+  forall f is_lower is_upper stmts es,
+    build_program f gen_fixed is_lower is_upper stmts = Err es ->
+    es <> [] /\ (forall e, In e es -> ek e <> Panicked /\ ek e <> OutOfFuel).
+Proof. exact build_no_internal_error_gen_holds. Qed.
+Print Assumptions C13_builder_never_fails_internally.
+
+(* the draft for an arbitrary component table is false (a table listing an input twice makes the
+   sorter panic): the condition that matters is stated and holds of the compiled table *)
+Theorem C13_builder_total_needs_distinct_table : ~ stmt_build_no_internal_error_any_table.
+Proof. exact build_no_internal_error_any_table_refuted. Qed.
+Print Assumptions C13_builder_total_needs_distinct_table.
+
+(* the panics and asserts of preprocess_fixed / assignments_to_actions that the model has no
+   branch for are unreachable at the point where Program::new calls the scheduler *)
+Theorem C13_scheduler_asserts_hold : stmt_scheduler_asserts /\ stmt_scheduler_call_hyps /\ stmt_preprocess_fixed_guards.
+Proof. split; [exact scheduler_asserts_holds | split; [exact scheduler_call_hyps_holds | exact preprocess_fixed_guards_holds]]. Qed.
+Print Assumptions C13_scheduler_asserts_hold.
+
+(* text -> tokens -> statements -> program: every byte sequence is rejected by the lexer or the
+   parser, accepted, or rejected by Program::new with at least one user diagnostic *)
+Theorem C13_front_end_total :
+  forall uc f is_lower is_upper (bytes : list N),
+    parse_text uc doc_tiers bytes = None \/
+    exists stmts, parse_text uc doc_tiers bytes = Some stmts /\
+      ((exists p, build_program f gen_fixed is_lower is_upper stmts = Ok p) \/
+       (exists es, build_program f gen_fixed is_lower is_upper stmts = Err es /\ es <> [] /\ user_errors es)).
+Proof. exact front_end_total_holds. Qed.
+Print Assumptions C13_front_end_total.
